@@ -48,6 +48,6 @@ Next == /\ l <= TraceLen
         /\ l' = l + 1
         /\ LET ok == Allowed(TraceLog[l]) IN
              /\ bad' = IF ok THEN bad ELSE bad + 1
-             /\ ok \/ Reject(l, TraceLog[l].e)
+             /\ IF ok THEN TRUE ELSE Reject(l, TraceLog[l].e)
 Spec == Init /\ [][Next]_vars
 =============================================================================
